@@ -79,6 +79,10 @@ def noNanDiv (x y : α) : α := if isZero y then 0 else x / y
 /-- `L0Norm.prox` on one real entry: `where(|v| >= lam, v, 0)`  (threshold as coded) -/
 def l0Prox1 (v lam : α) : α := if HasAbs.abs v < lam then 0 else v
 
+/-- `L0Norm.prox` on one entry, NaN-faithful transcription of `where(|v| >= lam, v, 0)` (needs `≤`): a NaN entry fails the test and
+    becomes `0`; on non-NaN data it is `l0Prox1` (theorem `ProxXR.l0_fin`) -/
+def l0Prox1X [LE α] [DecidableLE α] (v lam : α) : α := if lam ≤ HasAbs.abs v then v else 0
+
 /-- `L1Norm.prox` on one real entry: `sign(v) * 0.5*(t+|t|)`, `t = |v|-lam` -/
 def l1Prox1 (v lam : α) : α := sign v * posPart (HasAbs.abs v - lam)
 
